@@ -363,3 +363,330 @@ C03.manifest = {
             "kept the minimum instead of the stored weight) was repaired by a fix: commit; the model is the repaired code.",
     "technique": "Coq proof: data-structure invariant by induction over histories + correspondence via hook snapshot",
 }
+
+
+# ------------------------------------------------------------------------------------------
+# C02 / C09 / C15: oracles evaluated on the implementation's own observations
+# ------------------------------------------------------------------------------------------
+def _split_queries(c, o):
+    """pairs each query op of the case with the observations it produced"""
+    # the observation stream: mutations produce kind-1 (+ kind 5) rows, snapshots a fixed block
+    return None
+
+
+class C09Prop(HistProp):
+    """oracle: handshake identities on the implementation's own answers (independent of the model)"""
+
+    def oracle(self, c, o):
+        msgs = []
+        directed, multi = c["spec"][0], c["spec"][1]
+        nodes = edges = None
+        deg = indeg = outdeg = wdeg = windeg = woutdeg = counts = None
+        for kind, rows, fl in o:
+            if kind == 2:
+                nodes = [r[0] for r in rows]
+            elif kind == 1003:
+                edges = rows
+            elif kind == 119:
+                counts = rows[0]
+            elif kind == 1136:
+                deg = {r[0]: r[1] for r in rows}
+            elif kind == 1137:
+                indeg = {r[0]: r[1] for r in rows}
+            elif kind == 1138:
+                outdeg = {r[0]: r[1] for r in rows}
+            elif kind == 1139:
+                wdeg = {r[0]: (None if r[1] == 0 else r[2]) for r in rows}
+            elif kind == 1140:
+                windeg = {r[0]: (None if r[1] == 0 else r[2]) for r in rows}
+            elif kind == 1141:
+                woutdeg = {r[0]: (None if r[1] == 0 else r[2]) for r in rows}
+        if nodes is None or edges is None:
+            return msgs
+        m = len(edges)
+        if counts is not None:
+            if counts[0] != len(nodes):
+                msgs.append("number_of_nodes %d != %d nodes" % (counts[0], len(nodes)))
+            if counts[1] != m:
+                msgs.append("number_of_edges %d != %d stored edges" % (counts[1], m))
+            if counts[3] != m:
+                msgs.append("size(false) %d != %d stored edges" % (counts[3], m))
+            ws = [None if e[2] == 0 else e[3] for e in edges]
+            tot = None if any(w is None for w in ws) else sum(ws)
+            got = None if counts[4] == 0 else counts[5]
+            if got != tot:
+                msgs.append("size(true) %s != sum of weights %s" % (got, tot))
+        if deg is not None:
+            if sum(deg.values()) != 2 * m:
+                msgs.append("handshake: degrees sum to %d, 2m = %d" % (sum(deg.values()), 2 * m))
+            for x in nodes:
+                exp = sum((e[0] == x) + (e[1] == x) for e in edges)
+                if deg.get(x) != exp:
+                    msgs.append("degree(%d) = %s, edge multiset gives %d" % (x, deg.get(x), exp))
+                    break
+        if directed and indeg is not None and outdeg is not None and deg is not None:
+            if sum(indeg.values()) != m or sum(outdeg.values()) != m:
+                msgs.append("in/out degrees sum to %d/%d, m = %d" % (sum(indeg.values()), sum(outdeg.values()), m))
+            for x in nodes:
+                if deg[x] != indeg[x] + outdeg[x]:
+                    msgs.append("degree(%d)=%d != in %d + out %d" % (x, deg[x], indeg[x], outdeg[x]))
+                    break
+        allreal = all(e[2] == 1 for e in edges)
+        if allreal and wdeg is not None:
+            tw = sum(e[3] for e in edges)
+            if sum(v for v in wdeg.values()) != 2 * tw:
+                msgs.append("weighted handshake: %s != 2*%s" % (sum(wdeg.values()), tw))
+            if directed and windeg is not None and woutdeg is not None:
+                if sum(windeg.values()) != tw or sum(woutdeg.values()) != tw:
+                    msgs.append("weighted in/out degree sums %s/%s != %s" % (sum(windeg.values()), sum(woutdeg.values()), tw))
+                for x in nodes:
+                    if wdeg[x] != windeg[x] + woutdeg[x]:
+                        msgs.append("weighted degree(%d) != in + out" % x)
+                        break
+        # matrix (single-edge graphs): kind 1144 rows [i, j, flag, w]
+        for kind, rows, fl in o:
+            if kind == 1144 and not multi:
+                idx = {x: i for i, x in enumerate(nodes)}
+                exp = {}
+                for e in edges:
+                    w = 1 if e[2] == 0 else e[3]
+                    exp[(idx[e[0]], idx[e[1]])] = w
+                    if not directed:
+                        exp[(idx[e[1]], idx[e[0]])] = w
+                got = {(r[0], r[1]): r[3] for r in rows}
+                if got != exp:
+                    msgs.append("adjacency matrix entries %s != expected %s" % (sorted(got.items())[:6], sorted(exp.items())[:6]))
+                if not directed and any(got.get((j, i)) != w for (i, j), w in got.items()):
+                    msgs.append("adjacency matrix of an undirected graph is not symmetric")
+        return msgs[:3]
+
+
+class C02Prop(HistProp):
+    """oracle: the per-node / pairwise answers recomputed from get_all_nodes / get_all_edges alone"""
+
+    def oracle(self, c, o):
+        msgs = []
+        directed, multi = c["spec"][0], c["spec"][1]
+        nodes = edges = None
+        # walk ops and observations in lockstep
+        it = iter(o)
+
+        def nxt():
+            return next(it, None)
+        try:
+            for op in c["ops"]:
+                if op[0] == "snap":
+                    blk = [nxt() for _ in range(12)]
+                    nodes = [r[0] for r in blk[0][1]]
+                    edges = blk[1][1]
+                    continue
+                if op[0] == "view":
+                    blk = [nxt() for _ in range(2)]
+                    nodes = [r[0] for r in blk[0][1]]
+                    edges = blk[1][1]
+                    continue
+                if op[0] != "q":
+                    code = nxt()
+                    if code is None or code[1][0][0] == 100:
+                        return msgs
+                    nxt()  # kind 5
+                    if c["snap_each"]:
+                        for _ in range(12):
+                            nxt()
+                    continue
+                q, a = op[1], op[2]
+                if nodes is None:
+                    return msgs
+                has = lambda x: x in nodes
+                def key(u, v):
+                    return (u, v) if directed or u <= v else (v, u)
+                if q in ("get_edge", "get_edges"):
+                    code = nxt()[1][0][0]
+                    body = nxt() if code == 0 else None
+                    u, v = a
+                    want_multi = (q == "get_edges")
+                    if bool(multi) != want_multi:
+                        exp = 12
+                    elif not has(u) or not has(v):
+                        exp = 4
+                    else:
+                        grp = [e for e in edges if (e[0], e[1]) == key(u, v)]
+                        exp = 0 if grp else 7
+                        if grp and body is not None:
+                            if q == "get_edges" and sorted(body[1]) != sorted(grp):
+                                msgs.append("get_edges(%d,%d) differs from get_all_edges" % (u, v))
+                            if q == "get_edge" and body[1][0] not in grp:
+                                msgs.append("get_edge(%d,%d) returns an edge that is not stored" % (u, v))
+                    if code != exp:
+                        msgs.append("%s(%d,%d) outcome %d, expected %d" % (q, u, v, code, exp))
+                elif q in ("get_edges_for_node", "get_in_edges_for_node", "get_out_edges_for_node"):
+                    code = nxt()[1][0][0]
+                    body = nxt() if code == 0 else None
+                    x = a[0]
+                    if q != "get_edges_for_node" and not directed:
+                        exp = 12
+                    elif not has(x):
+                        exp = 4
+                    else:
+                        exp = 0
+                        if q == "get_edges_for_node":
+                            want = [e for e in edges if e[0] == x or e[1] == x]
+                        elif q == "get_in_edges_for_node":
+                            want = [e for e in edges if e[1] == x]
+                        else:
+                            want = [e for e in edges if e[0] == x]
+                        if body is not None and sorted(body[1]) != sorted(want):
+                            msgs.append("%s(%d) = %s but get_all_edges gives %s" % (q, x, sorted(body[1]), sorted(want)))
+                    if code != exp:
+                        msgs.append("%s(%d) outcome %d, expected %d" % (q, x, code, exp))
+                elif q in ("get_edges_for_nodes", "get_in_edges_for_nodes", "get_out_edges_for_nodes"):
+                    code = nxt()[1][0][0]
+                    body = nxt() if code == 0 else None
+                    xs = list(a)
+                    if q != "get_edges_for_nodes" and not directed:
+                        exp = 12
+                    elif not all(has(x) for x in xs):
+                        exp = 4
+                    else:
+                        exp = 0
+                        if q == "get_edges_for_nodes":
+                            want = [e for e in edges if e[0] in xs or e[1] in xs]
+                        elif q == "get_in_edges_for_nodes":
+                            want = [e for e in edges if e[1] in xs]
+                        else:
+                            want = [e for e in edges if e[0] in xs]
+                        if body is not None and sorted(body[1]) != sorted(want):
+                            msgs.append("%s(%s) disagrees with get_all_edges" % (q, xs))
+                    if code != exp:
+                        msgs.append("%s(%s) outcome %d, expected %d" % (q, xs, code, exp))
+                elif q in ("get_neighbor_nodes", "get_predecessor_nodes", "get_successor_nodes",
+                           "get_predecessor_node_names", "get_successor_node_names"):
+                    code = nxt()[1][0][0]
+                    body = nxt() if code == 0 else None
+                    x = a[0]
+                    succ = sorted(set([e[1] for e in edges if e[0] == x] +
+                                      ([] if directed else [e[0] for e in edges if e[1] == x])))
+                    pred = sorted(set(e[0] for e in edges if e[1] == x)) if directed else []
+                    if q == "get_neighbor_nodes":
+                        exp = 0 if has(x) else 4
+                        want = sorted(set(succ + pred))
+                    else:
+                        exp = 12 if not directed else (0 if has(x) else 4)
+                        want = pred if "predecessor" in q else succ
+                    if code != exp:
+                        msgs.append("%s(%d) outcome %d, expected %d" % (q, x, code, exp))
+                    elif body is not None:
+                        got = sorted(r[0] for r in body[1])
+                        if got != want:
+                            msgs.append("%s(%d) = %s but the edge list gives %s" % (q, x, got, want))
+                elif q == "get_node":
+                    b = nxt()
+                    if b[0] == 110 and (len(b[1]) == 1) != has(a[0]):
+                        msgs.append("get_node(%d) disagrees with get_all_nodes" % a[0])
+                elif q == "has_node":
+                    b = nxt()
+                    if b[0] == 117 and bool(b[1][0][0]) != has(a[0]):
+                        msgs.append("has_node(%d) disagrees with get_all_nodes" % a[0])
+                elif q == "has_nodes":
+                    b = nxt()
+                    if b[0] == 118 and bool(b[1][0][0]) != all(has(x) for x in a):
+                        msgs.append("has_nodes(%s) disagrees with get_all_nodes" % (list(a),))
+                elif q == "get_successors_or_neighbors":
+                    b = nxt()
+                    if b[0] == 1 and b[1][0][0] == 0:
+                        nxt()
+                elif q == "breadth_first_search":
+                    b = nxt()
+                    if b[0] == 1 and b[1][0][0] == 0:
+                        body = nxt()
+                        x = a[0]
+                        adj = {}
+                        for e in edges:
+                            adj.setdefault(e[0], set()).add(e[1])
+                            if not directed:
+                                adj.setdefault(e[1], set()).add(e[0])
+                        seen, st = {x}, [x]
+                        while st:
+                            y = st.pop()
+                            for zz in adj.get(y, ()):
+                                if zz not in seen:
+                                    seen.add(zz)
+                                    st.append(zz)
+                        got = [r[0] for r in body[1]]
+                        first = [r[0] for r in body[1] if r[1] == 1]
+                        if sorted(got) != sorted(seen) or first != [x]:
+                            msgs.append("breadth_first_search(%d) = %s, reachable set %s" % (x, sorted(got), sorted(seen)))
+                elif q in ("counts", "get_all_node_names", "get_node_by_index"):
+                    nxt()
+                else:
+                    return msgs  # unknown query shape: stop the lockstep walk
+        except (StopIteration, TypeError, IndexError):
+            return msgs[:3]
+        return msgs[:3]
+
+
+C02 = register(C02Prop(
+    "C02", "c02", 700, 8000,
+    "histories of 2-10 mutation calls (all 96 GraphSpecs cycled, 4-5 names whose sort order differs from insertion "
+    "order, weights {NaN,1,2,3}, parallel edges, self-loops) followed by the hook snapshot and a battery of ~150-250 "
+    "read calls: get_edge/get_edges for every ordered pair of names incl. one absent name, the ten per-name queries for "
+    "every name, get_node_by_index for every position, BFS from every node, the four node-set queries for several "
+    "subsets incl. the empty set and absent names; every answer is compared with the Coq model and, independently, "
+    "recomputed from get_all_nodes()/get_all_edges() alone; non-trivial = >=2 kinds of mutation call and one success"))
+C02.manifest = {
+    "text": "Proved (unbounded, every WF state = every state reachable by any history, generic name type): get_node/has_node "
+            "answer from the node list; get_edge/get_edges equal the pair's edges of get_all_edges in insertion order with "
+            "WrongMethod/NodeNotFound/EdgeNotFound exactly as specified; both are symmetric in their arguments on undirected "
+            "graphs for any relation between name order and insertion order; get_out/in_edges_for_node and get_edges_for_node "
+            "are permutations of the edges of get_all_edges leaving / entering / touching the node (directed self-loop once). "
+            "The remaining queries (node-set variants, neighbour/successor/predecessor lists, BFS) are tied to the model by the "
+            "correspondence and recomputed from the public node/edge lists by an independent oracle on every generated history.",
+    "note": "Axioms: none. Partial: the successor/predecessor/neighbour node queries, the *_for_nodes variants and BFS have a "
+            "faithful model and per-case validation but no unbounded theorem yet (their index clauses wf_sm/wf_pm/wf_su/wf_pr ARE "
+            "proved invariant). Defect F3 (directed self-loop listed twice) repaired by a fix: commit.",
+    "technique": "Coq proof: queries = functions of the abstract graph under the WF invariant + correspondence",
+}
+
+C09 = register(C09Prop(
+    "C09", "c09", 1200, 15000,
+    "histories of 2-10 mutation calls biased to parallel edges and self-loops (45% of edges re-hit a pair), uniformly "
+    "weighted or unweighted, all 96 GraphSpecs, name order != insertion order; then counts, the six per-node degree "
+    "functions for every name incl. an absent one, the six *_for_all_nodes maps, density, degree_centrality and the "
+    "sparse adjacency matrix; every value compared with the Coq model; independently the handshake identities, "
+    "degree = in + out, weighted forms, size/number_of_edges and the matrix entries/symmetry are evaluated on the "
+    "implementation's own answers; non-trivial = >=2 kinds of mutation call and one success"))
+C09.manifest = {
+    "text": "Proved (unbounded, every reachable state): number_of_edges = size(false) = number of stored edges; "
+            "get_node_degree = #edges leaving + #edges entering (a self-loop adds two), in/out degree = those counts on "
+            "directed graphs, hence degree = in + out; handshake: degrees sum to 2m, in- and out-degrees each sum to m "
+            "(count_partition over the duplicate-free node list). Weighted degrees, density, degree_centrality and the "
+            "adjacency matrix are modelled (exact arithmetic), compared per case, and checked by the identity oracle.",
+    "note": "Axioms: none. Partial: weighted handshake, density/centrality scaling and matrix entries are validated per "
+            "generated history (model + identity oracle), not proved. Defects F2, F3, F4 repaired by fix: commits.",
+    "technique": "Coq proof: counting lemmas over the edge multiset under WF + correspondence + identity oracle",
+}
+
+
+class C15Prop(HistProp):
+    pass
+
+
+C15 = register(C15Prop(
+    "C15", "c15", 700, 8000,
+    "source graphs are products of histories (so of duplicate policies), all 96 GraphSpecs; then reverse, "
+    "to_single_edges, set_all_edge_weights(w in {NaN,0,2}) and get_subgraph for several subsets incl. the empty set, "
+    "all names and absent names; outcome, specs, node list, edge multiset and all twelve private indexes of every "
+    "result are compared with the Coq model (derived graphs are rebuilt through the proved add_edge ladder), and the "
+    "source is snapshotted again afterwards (unchanged); non-trivial = >=2 kinds of mutation call and one success"))
+C15.manifest = {
+    "text": "Proved (unbounded): every Ok result of get_subgraph / reverse / set_all_edge_weights / to_single_edges is a "
+            "reachable state, hence satisfies the coherence invariant WF (C01-C03 hold of it) and carries the source's specs "
+            "(multi_edges cleared by to_single_edges); reverse refuses undirected and to_single_edges refuses single-edge "
+            "graphs with WrongMethod; the node list handed to the rebuild is exactly the existing nodes named in S. The "
+            "exact node/edge content of each result (induced edges, flipped edges, summed weights) is decided per generated "
+            "case against the model, whose rebuild step is the proved add_edge refinement.",
+    "note": "Axioms: none. Partial: the closed-form content theorems (edges of the subgraph = stored edges with both ends in "
+            "S, reverse twice = identity up to edge permutation, collapse weight = group sum) are validated per case, not yet "
+            "proved unboundedly. 'Source unchanged' is immediate in the functional model and follows from &self in Rust.",
+    "technique": "Coq proof: derived graphs are reachable states (WF by the history theorem) + correspondence",
+}
